@@ -50,6 +50,7 @@ func allShapes(thorough bool) []shape {
 	shapesCollections(ss)
 	shapesStrings(ss)
 	shapesMisc(ss)
+	shapesScope(ss, thorough)
 	return ss.list
 }
 
@@ -1524,3 +1525,74 @@ func Y@(a int, b int) int {
 `)
 }
 
+
+// ---- block scopes and shadowing -------------------------------------------------------------------------------------------
+
+// shapesScope: a declaration (:=, var with and without value, two names) that
+// shadows the outer x inside ONE block of a statement - every block kind: if /
+// else / else-if bodies, for and range bodies, each clause of tagged and
+// tagless switches with default first / in the middle / last and with
+// fallthrough, plain nested blocks, if / switch / for init statements - and a
+// use of the OUTER x (read, op-assign, ++, case expression, loop condition) in
+// a sibling block, a later clause and after the statement. The argument a
+// selects the block that runs, so every block of every structure is taken.
+func shapesScope(ss *shapeSet, thorough bool) {
+	type hole struct{ name, text string }
+	decls := []hole{
+		{"define", "x := 100 + b\n\t\tz += x"},
+		{"var-value", "var x int = 100 + b\n\t\tz += x"},
+		{"var-zero", "var x int\n\t\tx += 100 + b\n\t\tz += x"},
+		{"define-two", "x, w := 100+b, 3\n\t\tz += x * w"},
+	}
+	uses := []hole{
+		{"read", "z += x"},
+		{"op-assign", "x += 7"},
+		{"incr", "x++"},
+	}
+	// %D = the shadowing declaration, %U = a use of the outer x; "after" uses follow every structure
+	structs := []hole{
+		{"if-then/else", "if a == 0 {\n\t\t%D\n\t} else {\n\t\t%U\n\t}"},
+		{"if-else/then", "if a != 0 {\n\t\t%U\n\t} else {\n\t\t%D\n\t}"},
+		{"else-if-chain/first", "if a == 0 {\n\t\t%D\n\t} else if a == 1 {\n\t\t%U\n\t} else {\n\t\t%U\n\t\tz += 1000\n\t}"},
+		{"else-if-chain/middle", "if a == 1 {\n\t\t%U\n\t} else if a == 0 {\n\t\t%D\n\t} else {\n\t\t%U\n\t\tz += 1000\n\t}"},
+		{"switch-tag/first", "switch a {\n\tcase 0:\n\t\t%D\n\tcase 1:\n\t\t%U\n\tdefault:\n\t\t%U\n\t\tz += 1000\n\t}"},
+		{"switch-tag/middle", "switch a {\n\tcase 1:\n\t\t%U\n\tcase 0:\n\t\t%D\n\tcase 2:\n\t\t%U\n\t\tz += 1000\n\tdefault:\n\t\t%U\n\t\tz += 2000\n\t}"},
+		{"switch-tag/default-first-declares", "switch a {\n\tdefault:\n\t\t%D\n\tcase 1:\n\t\t%U\n\tcase 2:\n\t\t%U\n\t\tz += 1000\n\t}"},
+		{"switch-tag/default-middle-uses", "switch a {\n\tcase 0:\n\t\t%D\n\tdefault:\n\t\t%U\n\tcase 2:\n\t\t%U\n\t\tz += 1000\n\t}"},
+		{"switch-tag/default-last-declares", "switch a {\n\tcase 1:\n\t\t%U\n\tcase 2:\n\t\t%U\n\t\tz += 1000\n\tdefault:\n\t\t%D\n\t}"},
+		{"switch-tag/fallthrough-into-use", "switch a {\n\tcase 0:\n\t\t%D\n\t\tfallthrough\n\tcase 1:\n\t\t%U\n\tcase 2:\n\t\t%U\n\t\tz += 1000\n\t}"},
+		{"switch-tag/fallthrough-chain", "switch a {\n\tcase 0:\n\t\t%D\n\t\tfallthrough\n\tcase 1:\n\t\t%U\n\t\tfallthrough\n\tdefault:\n\t\t%U\n\t\tz += 1000\n\t}"},
+		{"switch-tagless/first", "switch {\n\tcase a == 0:\n\t\t%D\n\tcase a == 1:\n\t\t%U\n\tdefault:\n\t\t%U\n\t\tz += 1000\n\t}"},
+		{"switch-tagless/outer-in-later-condition", "switch {\n\tcase a == 0:\n\t\t%D\n\tcase x+a > 11:\n\t\t%U\n\tcase x-a == 9:\n\t\t%U\n\t\tz += 1000\n\t}"},
+		{"switch-tag/outer-as-case-expression", "switch a + 9 {\n\tcase 16:\n\t\t%D\n\tcase x:\n\t\t%U\n\tcase x + 1, x - 10:\n\t\t%U\n\t\tz += 1000\n\t}"},
+		{"switch-in-loop/all-clauses", "for i := 0; i < 3; i++ {\n\t\tswitch (i + a) % 3 {\n\t\tcase 0:\n\t\t%D\n\t\tcase 1:\n\t\t%U\n\t\tdefault:\n\t\t%U\n\t\tz += 1000\n\t\t}\n\t}"},
+		{"for-body", "for i := 0; i < 2; i++ {\n\t\tif i == a {\n\t\t\tcontinue\n\t\t}\n\t\t%D\n\t}\n\t%U"},
+		{"for-body/outer-in-condition-and-post", "for x < 12 {\n\t\tx++\n\t\t{\n\t\t%D\n\t\t}\n\t\tif a > 0 {\n\t\t%U\n\t\t}\n\t}"},
+		{"for-init-shadows", "for x := 0; x < 2; x++ {\n\t\tz += x + a\n\t}\n\t%U"},
+		{"range-body", "for _, v := range []int{1, 2} {\n\t\tif v == a {\n\t\t\tbreak\n\t\t}\n\t\t%D\n\t}\n\t%U"},
+		{"range-variable-shadows", "for _, x := range []int{a, 2} {\n\t\tz += x\n\t}\n\t%U"},
+		{"nested-block", "{\n\t\t%D\n\t}\n\t%U\n\t{\n\t\t%U\n\t}"},
+		{"nested-blocks-two-levels", "{\n\t\t%D\n\t\t{\n\t\t\tx := 1000\n\t\t\tz += x\n\t\t}\n\t\tz += x\n\t}\n\t%U"},
+		{"if-init-shadows", "if x := a * 2; x > 2 {\n\t\tz += x\n\t} else {\n\t\tz -= x\n\t}\n\t%U"},
+		{"switch-init-shadows", "switch x := a + 1; x {\n\tcase 1:\n\t\tz += x\n\tcase 2:\n\t\tx += 5\n\t\tz += x\n\t}\n\t%U"},
+	}
+	for _, st := range structs {
+		for di, d := range decls {
+			if !strings.Contains(st.text, "%D") && di > 0 {
+				continue // the structure brings its own declaration
+			}
+			for _, u := range uses {
+				if !thorough && d.name == "define-two" && u.name != "read" {
+					continue
+				}
+				body := strings.ReplaceAll(strings.ReplaceAll(st.text, "%D", d.text), "%U", u.text)
+				dn := d.name
+				if !strings.Contains(st.text, "%D") {
+					dn = "own"
+				}
+				src := "func V@(a int, b int) int {\n\tx, z := 10, 0\n\t" + body + "\n\tz += x\n\tx++\n\treturn x*10000 + z\n}\n"
+				ss.add("scope", st.name+"/"+dn+"/"+u.name, "", src, false)
+			}
+		}
+	}
+}
